@@ -43,30 +43,6 @@ Definition in_domain (d : defn) (o : opts) : bool :=
   && forallb (fun c => in_range (d_ty d) (c_val c)) (d_consts d)
   && (negb (o_ci o) || str_nodupb (map (fun c => to_lower (c_name c)) (d_consts d))).
 
-(* ---- spec-level view of traits: columns are named on the line of the least (value, name) *)
-Definition const_less (a b : const) : bool :=
-  if c_val a =? c_val b then str_ltb (c_name a) (c_name b) else c_val a <? c_val b.
-Fixpoint least_const (x : const) (l : list const) : const :=
-  match l with
-  | [] => x
-  | y :: r => if const_less y x then least_const y r else least_const x r
-  end.
-Definition lowest_const (cs : list const) : option const :=
-  match cs with [] => None | x :: r => Some (least_const x r) end.
-Definition column_names (d : defn) : list string :=
-  match lowest_const (d_consts d) with
-  | Some c => map (fun cl => trim_underscore (cl_var cl)) (c_cells c)
-  | None => []
-  end.
-(* (column name, cell) pairs of a constant *)
-Definition named_cells (d : defn) (c : const) : list (string * cell) := combine (column_names d) (c_cells c).
-Definition parsable_cells (d : defn) (o : opts) (c : const) : list cell :=
-  if o_notraits o then []
-  else map snd (filter (fun p => str_mem (fst p) (o_parsable o)) (named_cells d c)).
-(* is the dynamic value x the value of a parsable trait (of any constant)? *)
-Definition is_parsable_trait_value (d : defn) (o : opts) (x : dyn) : bool :=
-  existsb (fun c => existsb (fun cl => dyn_eqb x (cl_val cl)) (parsable_cells d o c)) (d_consts d).
-
 (* documented acceptance rules of the generator, over the definition:
    trait names on the line of the lowest value; a line with trait cells has (or shares its value
    with a line that has) one cell per trait; parsable trait values unique within the enum *)
@@ -289,32 +265,6 @@ Definition unique_ok (d : defn) (o : opts) : bool :=
 Definition spec_accepts (d : defn) (o : opts) : bool :=
   if o_notraits o then true else counts_ok d && unique_ok d o.
 
-(* the cell of column col on the primary definition line of value e *)
-Definition primary_cell (d : defn) (col : string) (e : Z) : option cell :=
-  match primary_const (d_consts d) e with
-  | Some c => match find (fun p => String.eqb (fst p) col) (named_cells d c) with
-              | Some p => Some (snd p)
-              | None => None
-              end
-  | None => None
-  end.
-Definition column_zero (d : defn) (col : string) : payload :=
-  match lowest_const (d_consts d) with
-  | Some l => match find (fun p => String.eqb (fst p) col) (named_cells d l) with
-              | Some p => match lookup (dty (cl_val (snd p))) (d_types d) with
-                          | Some ti => zero_payload (ti_bkind ti)
-                          | None => PInt 0
-                          end
-              | None => PInt 0
-              end
-  | None => PInt 0
-  end.
-Definition accessor_spec (d : defn) (col : string) (e : Z) : payload :=
-  match primary_cell d col e with
-  | Some cl => dval (cl_val cl)
-  | None => column_zero d col
-  end.
-
 Definition c12_doc_spec_ok (d : defn) (o : opts) (x : doc_obs) : bool :=
   if negb (do_called x) then true
   else match do_from x with
@@ -353,7 +303,7 @@ Definition c12_model_eq (c : c12_case) : bool :=
   | Built t =>
       Nat.eqb (k12_outcome c) 0
       && list_eqb Z.eqb (k12_values c) (sem_values t)
-      && list_eqb String.eqb (map fst (k12_acc c)) (map col_name (t_cols t))
+      && list_eqb String.eqb (isort str_ltb (map fst (k12_acc c))) (map col_name (t_cols t))
       && forallb (fun a => match find (fun col => String.eqb (col_name col) (fst a)) (t_cols t) with
                            | Some col => forallb (fun p => payload_eqb (snd p) (sem_accessor col (fst p))) (snd a)
                            | None => false
